@@ -1,5 +1,8 @@
 use crate::{defrag::*, *};
+#[cfg(not(julianschmid_etherparse_verif))]
 use std::collections::HashMap;
+#[cfg(julianschmid_etherparse_verif)]
+use crate::defrag::verif_map::HashMap;
 use std::vec::Vec;
 
 /// Pool of buffers to reconstruct multiple fragmented IP packets in
@@ -130,6 +133,9 @@ where
         };
 
         // get the reconstruction buffer
+        #[cfg(julianschmid_etherparse_verif)]
+        use crate::defrag::verif_map::Entry;
+        #[cfg(not(julianschmid_etherparse_verif))]
         use std::collections::hash_map::Entry;
         match self.active.entry(frag_id) {
             Entry::Occupied(mut entry) => {
